@@ -285,7 +285,11 @@ fn check(e: &Expression, recs: Vec<FileRecord>, all_run: bool, case: &str, rep: 
             if all_run {
                 let mo = run.interp.w.matcher_objs.len();
                 let po = run.interp.w.printer_objs.len();
-                if mo != mreq.len() {
+                // a program that creates no matcher (printer) objects at all - the test inlined at its
+                // use - has no resource to share or to mix up; behaviour was compared above
+                if mo == 0 && !mreq.is_empty() {
+                    rep.count("programs_without_matcher_objects");
+                } else if mo != mreq.len() {
                     rep.violation(
                         if mo < mreq.len() { "C11:matchers-merged" } else { "C11:matchers-not-shared" },
                         &format!("{} distinct (pattern, case) requests but {} distinct matcher objects were used at run time", mreq.len(), mo),
@@ -294,7 +298,9 @@ fn check(e: &Expression, recs: Vec<FileRecord>, all_run: bool, case: &str, rep: 
                     );
                     return;
                 }
-                if po != preq.len() {
+                if po == 0 && !preq.is_empty() {
+                    rep.count("programs_without_printer_objects");
+                } else if po != preq.len() {
                     rep.violation(
                         if po < preq.len() { "C11:printers-merged" } else { "C11:printers-not-shared" },
                         &format!("{} distinct (destination, terminator) requests but {} distinct printer objects were used at run time", preq.len(), po),
